@@ -96,3 +96,45 @@ theorem addToSet_clause_update (spec now : Val) (wi : Bool) (f : String) (vs fs 
   rw [addToSet_each_clause _ vs he k hk hne]
 
 end MongoModel.Proofs.C02Lemmas
+
+namespace MongoModel.Proofs.C02Lemmas
+open MongoModel MongoModel.Spec
+
+/-- `$pop` of a top-level field the document does not hold: nothing happens -/
+theorem pop_missing_field (now : Val) (f : String) (fs : Fields) (h : dget f fs = none) :
+    runUpdater .pop now (.doc fs) f (.int 1) = .ok (.doc fs) ∧
+    runUpdater .pop now (.doc fs) f (.int (-1)) = .ok (.doc fs) := by
+  constructor <;> simp [runUpdater, popSpec, pyEq, Num.eq, Val.num?, h, bind, Except.bind, pure, Except.pure]
+
+/-- `$pop` of a dotted path whose first sub-document is missing: nothing is created, whatever the
+    operand -/
+theorem pop_missing_parent (now v : Val) (p q : String) (rest : List String) (fs : Fields)
+    (h : dget p fs = none) :
+    updateSingleField .pop now v (p :: q :: rest) (.doc fs) = .ok (.doc fs) := by
+  rw [usf_doc, h]
+  rfl
+
+/-- `$pullAll` behind a path that ends in the index of an array item -/
+theorem pullAllAt_item (xs vs : List Val) (last : String) (i : Nat)
+    (hd : isDigits last = true) (hi : pyInt? last = some (i : Int)) :
+    (∀ ys, xs[i]? = some (.arr ys) →
+      pullAllAt (.arr vs) (.arr xs) last =
+        .ok (.arr (xs.set i (.arr (ys.filter (fun o => !pyIn o vs)))))) ∧
+    (xs[i]? = none → pullAllAt (.arr vs) (.arr xs) last = .ok (.arr xs)) := by
+  have hneg : ¬ ((i : Int) < 0) := by omega
+  constructor
+  · intro ys hx
+    simp [pullAllAt, hd, hi, hneg, hx, pullAllValue, bind, Except.bind, pure, Except.pure]
+  · intro hx
+    simp [pullAllAt, hd, hi, hneg, hx]
+
+/-- … and behind a path that leads through a scalar (or null, or a string): nothing to pull from -/
+theorem pullAllAt_scalar (value parent : Val) (last : String)
+    (hp : ∀ fs, parent ≠ .doc fs) (ha : ∀ xs, parent ≠ .arr xs) :
+    pullAllAt value parent last = .ok parent := by
+  cases parent with
+  | doc fs => exact absurd rfl (hp fs)
+  | arr xs => exact absurd rfl (ha xs)
+  | _ => rfl
+
+end MongoModel.Proofs.C02Lemmas
